@@ -2,6 +2,7 @@ import TmVerif.Model.LRProto
 import TmVerif.Model.LRSound
 import TmVerif.Model.LRRef
 import TmVerif.Model.LRAccept
+import TmVerif.Model.LRComplete
 import TmVerif.Model.DriverC03
 namespace TmVerif.DriverC01
 open TmVerif.Proto TmVerif.LR TmVerif.CFG TmVerif.LRSound
@@ -28,9 +29,19 @@ def showRun (res : Result) (c : Cfg) : String :=
     | .fuel => "loop"
   " ".intercalate (evs ++ [r])
 
-def validate (g : Grammar) (t : Tables) : String :=
+/-- completeness certificate: computed from the LALR(1) reference over the default encoding, then
+checked against the encoding in use (`none` = accepted). -/
+def validateCompl (g : Grammar) (t : Tables) : Option String :=
+  match LRComplete.mkCCert g { t with optimized := false } with
+  | .error m => some s!"mismatch completeness certificate: cannot be built: {m}"
+  | .ok cc =>
+    if LRComplete.complOk g t cc then none
+    else some s!"mismatch completeness certificate: {LRComplete.complFailure g t cc}"
+
+def validate (g : Grammar) (t : Tables) (compl : Bool := true) : String :=
   let cert := computePast g t
-  if certOk g t cert then "ok"
+  if certOk g t cert then
+    if compl then (validateCompl g t).getD "ok" else "ok"
   else
     let msg := firstFailure g t cert
     -- classify final-state failures precisely with the LR(0) reference walk (default encoding)
@@ -42,7 +53,9 @@ def validate (g : Grammar) (t : Tables) : String :=
       else msg
     s!"mismatch {msg}"
 
-/-- `validate <grammar 6> <tables> <useOpt>` : soundness certificate check.
+/-- `validate <grammar 6> <tables> <useOpt> [nocompl]` : soundness certificate check and, unless
+`nocompl` is given (minimized tables: states are merged, the LR(0) reference walk does not apply),
+the completeness certificate check.
 `run <tables> <useOpt> <input> <toks> <endOff>` : the model's listener trace.
 `accept <tables> <useOpt> <input> <spec>…` : sentences check against the brute-force recogniser. -/
 def handleCase (args : List String) : Option String :=
@@ -51,6 +64,7 @@ def handleCase (args : List String) : Option String :=
     let (g, t, rest) ← parseGrammarTables rest
     match rest with
     | [o] => let o ← parseBool? o; some (validate g { t with optimized := o })
+    | [o, "nocompl"] => let o ← parseBool? o; some (validate g { t with optimized := o } false)
     | _ => none
   | "run" :: rest => do
     let (t, rest) ← parseTables rest
